@@ -628,4 +628,11 @@ theorem decode_false_bom :
 
 example : utf16Scalars [0xD83D, 0xDE00, 0x41] = [0x1F600, 0x41] := by decide
 
+/-- the constants regenerated from the source are the documented ones: unmapped codes become
+U+FFFD, codes have 1 to 4 bytes, a target string has 1 to 256 UTF-16 units -/
+theorem cmap_constants_documented :
+    CMAP_REPLACEMENT_CHAR = 0xFFFD ∧ CMAP_MAX_CODE_LEN = 4 ∧ CMAP_BAD_CODE_LEN = 0 ∧ CMAP_NUM_MAPS = 4 ∧
+    CMAP_SEG_MAX = 4 ∧ CMAP_SRC_MIN = 1 ∧ CMAP_SRC_MAX = 4 ∧ CMAP_DST_MIN = 1 ∧ CMAP_DST_MAX = 256 := by
+  decide
+
 end Lopdf.CMap
